@@ -1,4 +1,5 @@
-(** [merge_interface] of a NESTED requirement of a contributor into a tree-shaped interface of the aggregator computes the
+(** [merge_interface] of a NESTED requirement of a contributor (interfaces possibly shared between several places: [SDen])
+    into a tree-shaped interface of the aggregator ([Den]) computes the
     specification's recursive union ([union_with (tmerge_f n)], i.e. [tmerge]) of the two trees: same-named instance
     exports are merged recursively (the repaired branch of the aggregator), same-named leaves must be equal, new exports
     are copied.  The result is tree-shaped again, uses only interfaces it used before plus freshly appended ones, and
@@ -15,9 +16,9 @@ Proof.
   intros H l kb l'. unfold ustep1. destruct (assoc (fst kb) l) as [x|]; auto.
   destruct (m x (snd kb)) as [y|] eqn:E; [|discriminate]. now rewrite (H _ _ _ E).
 Qed.
-Lemma Den_leaf_tree d T k tr ids : leaf_tree tr -> Den d T k tr ids -> leaf_den T k tr /\ ids = [].
+Lemma Den_leaf_tree {Sh} d T k tr ids : leaf_tree tr -> DenG Sh d T k tr ids -> leaf_den T k tr /\ ids = [].
 Proof.
-  destruct d as [|d]; [intros _ []|]. cbn [Den]. intros L [H|[y [e [_ [-> _]]]]]; [exact H | destruct L].
+  destruct d as [|d]; [intros _ []|]. cbn [DenG]. intros L [H|[y [e [_ [-> _]]]]]; [exact H | destruct L].
 Qed.
 
 (** a leaf kind against an instance (or the converse) is never accepted, and the memo is not consulted for it *)
@@ -116,7 +117,7 @@ Section NMerge.
 
   (** copy the contributor's export and store it under [name] *)
   Lemma do_remap_n d f y name sk tb idb c c' oid exs e own :
-    NLoop d c y oid exs e own -> Den d t sk tb idb -> fresh idb c ->
+    NLoop d c y oid exs e own -> SDen d t sk tb idb ->
     (k' <-- remap_item_kind ord cf f t sk ;;; upd_if y (if_set_export name k')) c = AOk (tt, c') ->
     exists k' ids1,
       MI c' /\ get_if (c_types c') y = Some (mkif oid [] (ins name k' exs)) /\
@@ -124,8 +125,8 @@ Section NMerge.
       (forall n k0 tr, In n (map fst exs) -> Den d (c_types c) k0 tr (own n) -> Den d (c_types c') k0 tr (own n)) /\
       MFrame (rootids y own exs) c c' /\ rm_frame idb c c'.
   Proof.
-    intros L HD Hfresh H. apply bindM_ok in H as [k' [c1 [H1 H2]]].
-    destruct (RK_all ord cf Col Col_same tag0 Col_tag t Ct d f sk tb idb c k' c1 (nl_inv _ _ _ _ _ _ _ L) HD Hfresh H1)
+    intros L HD H. apply bindM_ok in H as [k' [c1 [H1 H2]]].
+    destruct (RK_all ord cf Col Col_same tag0 Col_tag t Ct d f sk tb idb c k' c1 (nl_inv _ _ _ _ _ _ _ L) HD H1)
       as [ids1 [D1 [I1 [E1 [F1 [N1 R1]]]]]].
     pose proof (AExt_get_if _ _ _ _ E1 (nl_get _ _ _ _ _ _ _ L)) as Hg1.
     destruct (upd_export c1 y oid exs name k' c' I1 Hg1 H2) as [I' [Hg' [E2 [Hoth [Hlen [Him [Hif Hrm]]]]]]].
@@ -142,12 +143,12 @@ Section NMerge.
       + congruence.
       + intros j z Nj Hz. rewrite Hoth; [now apply (AExt_get_if _ _ _ _ E1)|].
         intros X. apply Nj. left. apply get_if_lt in Hz as [Tj _]. apply id_eq2; congruence.
-    - intros j Nj. rewrite Hrm. now apply R1.
+    - intros j Nj. rewrite Hrm. apply R1. intros [].
   Qed.
 
   (** * The merge *)
   Definition ML (d : nat) : Prop := forall F y oid ea ids i oidb eb idsb c c',
-    MI c -> IDen d (c_types c) y oid ea ids -> IDen d t i oidb eb idsb -> fresh idsb c ->
+    MI c -> IDen d (c_types c) y oid ea ids -> SIDen d t i oidb eb idsb ->
     merge_interface ord cf F y t i c = AOk (tt, c') ->
     exists em ids', (exists n, union_with (tmerge_f n) ea eb = Some em) /\
       IDen d (c_types c') y oid em ids' /\ MI c' /\ MFrame ids c c' /\ rm_frame idsb c c' /\
@@ -192,7 +193,7 @@ Section NMerge.
 
   (** one export of the contributor *)
   Lemma nbody d (HML : forall d', d = S d' -> ML d') f y name sk tb idb c c' oid exs e own :
-    NLoop d c y oid exs e own -> Den d t sk tb idb -> fresh idb c ->
+    NLoop d c y oid exs e own -> SDen d t sk tb idb ->
     merge_export_body ord cf f y t (name, sk) c = AOk (tt, c') ->
     exists exs' e' own', NLoop d c' y oid exs' e' own' /\
       (exists n, ustep1 (tmerge_f n) e (name, tb) = Some e') /\
@@ -200,13 +201,13 @@ Section NMerge.
       (forall j, In j (rootids y own' exs') ->
                  In j (rootids y own exs) \/ (length (t_interfaces (c_types c)) <= id_idx j)%nat).
   Proof.
-    intros L HD Hfresh H. unfold merge_export_body in H.
+    intros L HD H. unfold merge_export_body in H.
     apply bindM_ok in H as [ex [c0 [H0 H]]]. unfold agg_if in H0. rewrite (nl_get _ _ _ _ _ _ _ L) in H0. cbn [idxM] in H0.
     apply ret_ok in H0 as [-> ->]. cbn [i_exports] in H.
     pose proof (nl_kids _ _ _ _ _ _ _ L) as K. pose proof (nl_nodup _ _ _ _ _ _ _ L) as ND. pose proof (nl_inv _ _ _ _ _ _ _ L) as I.
     destruct (assoc name exs) as [tk|] eqn:Ea.
     2: { (* a new export *)
-      destruct (do_remap_n d f y name sk tb idb c c' oid exs e own L HD Hfresh H) as [k' [ids1 [I' [Hg' [D1 [N1 [Hold [Fr Rm]]]]]]]].
+      destruct (do_remap_n d f y name sk tb idb c c' oid exs e own L HD H) as [k' [ids1 [I' [Hg' [D1 [N1 [Hold [Fr Rm]]]]]]]].
       assert (Hnin : ~ In name (map fst exs)) by now apply assoc_none_keys.
       exists (ins name k' exs), (e ++ [(name, tb)]), (upd own name ids1).
       split; [split|split; [|split; [|split]]].
@@ -232,12 +233,12 @@ Section NMerge.
     destruct (kids_assoc _ _ _ _ _ _ K Ea) as [ta [Eta Dk]].
     assert (Hname : In name (map fst exs)) by (eapply assoc_in_keys; eauto).
     destruct (nl_shaped _ _ _ _ _ _ _ L) as [Sh1 Sh2].
-    destruct d as [|d']; [destruct Dk|]. cbn [Den] in Dk, HD.
+    destruct d as [|d']; [destruct Dk|]. cbn [DenG] in Dk, HD.
     destruct Dk as [[Lk Eown]|[y' [ea' [-> [-> IDk]]]]], HD as [[Ls ->]|[j' [eb' [-> [-> IDs]]]]].
     - (* leaf / leaf *)
       destruct Lk as [Lt [Ut Rt]], Ls as [Ls [Us Rs]].
       assert (Wta : wt (S d') ta).
-      { apply (Den_wt (c_types c) (S d') tk ta (own name)). cbn [Den]. left. split; [split; [exact Lt|split; [exact Ut|exact Rt]]|exact Eown]. }
+      { apply (@Den_wt shaped (c_types c) (S d') tk ta (own name)). cbn [DenG]. left. split; [split; [exact Lt|split; [exact Ut|exact Rt]]|exact Eown]. }
       rewrite (nested_pair_leaf tk sk y Ls) in H.
       apply bindM_ok in H as [r1 [c1 [H1 H]]].
       destruct (sub_fa_leaf cf Col Col_same tag0 Col_tag t c sk tk r1 c1 tb ta Ct I Ls Lt Us Ut H1) as [Ec1 [I1 Ok1]].
@@ -271,8 +272,8 @@ Section NMerge.
         specialize (Ok2 eq_refl). subst tb.
         assert (Tc2 : c_types c2 = c_types c) by (rewrite Ec2, <- Tc1; reflexivity).
         assert (L2 : NLoop (S d') c2 y oid exs e own) by (apply (NLoop_same (S d') c); auto).
-        assert (HD2 : Den (S d') t sk ta []) by (cbn [Den]; left; split; [split; auto|reflexivity]).
-        destruct (do_remap_n (S d') f y name sk ta [] c2 c' oid exs e own L2 HD2 (fun j X => False_ind _ X) H)
+        assert (HD2 : SDen (S d') t sk ta []) by (cbn [DenG]; left; split; [split; auto|reflexivity]).
+        destruct (do_remap_n (S d') f y name sk ta [] c2 c' oid exs e own L2 HD2 H)
           as [k' [ids1 [I' [Hg' [D1 [N1 [Hold [Fr Rm]]]]]]]].
         assert (Lta : leaf_tree ta) by (eapply leaf_den_tree; split; eauto).
         destruct (Den_leaf_tree _ _ _ _ _ Lta D1) as [_ ->].
@@ -310,7 +311,7 @@ Section NMerge.
       { destruct (id_eqb y' y) eqn:E; auto. apply ideqb_eq in E. subst y'. exfalso. exact (Sh1 name Hname Hy'own). }
       cbn [nested_pair] in H. rewrite Ny in H.
       apply bindM_ok in H as [[] [c1 [H1 H]]].
-      destruct (HML d' eq_refl f y' None ea' (own name) j' None eb' idb c c1 I IDk IDs Hfresh H1)
+      destruct (HML d' eq_refl f y' None ea' (own name) j' None eb' idb c c1 I IDk IDs H1)
         as [em' [ids2 [[n Hn] [ID2 [I1 [Fr1 [Rm1 Sub2]]]]]]].
       unfold remapped_set in H. injection H as <-. cbn [ty_of].
       set (c' := with_remapped c1 (rm_ins (TInterface j') (TInterface y') (c_remapped c1))).
@@ -329,7 +330,7 @@ Section NMerge.
         * intros n0 k0 tr Hin Nn Hd. assert (Hn' : In n0 (map fst exs)) by (change n0 with (fst (n0, k0)); now apply in_map).
           rewrite upd_other by auto. eapply Den_frame; [apply Fr1| |exact Hd].
           intros j z Hj Hz. apply (mf_other _ _ _ Fr1); auto. intros X. exact (Sh2 n0 name j Hn' Hname Nn Hj X).
-        * rewrite upd_same. cbn [Den]. right. exists y', em'. split; auto.
+        * rewrite upd_same. cbn [DenG]. right. exists y', em'. split; auto.
       + eapply shaped_upd; [exact L| |auto].
         intros j Hj. destruct (Sub2 j Hj); auto.
       + exists (S n). unfold ustep1. cbn [fst snd]. rewrite Eta. cbn [tmerge_f]. rewrite Hn. reflexivity.
@@ -345,27 +346,22 @@ Section NMerge.
 
   (** all exports of the contributor *)
   Lemma nloop d (HML : forall d', d = S d' -> ML d') f y oid : forall rest eb ownb c c' exs e own,
-    NLoop d c y oid exs e own -> kids (Den d t) ownb rest eb -> NoDup (map fst rest) ->
-    (forall n m j, In n (map fst rest) -> In m (map fst rest) -> n <> m -> In j (ownb n) -> ~ In j (ownb m)) ->
-    (forall n, In n (map fst rest) -> fresh (ownb n) c) ->
+    NLoop d c y oid exs e own -> kids (SDen d t) ownb rest eb -> NoDup (map fst rest) ->
     forM (merge_export_body ord cf f y t) rest c = AOk (tt, c') ->
     exists exs' e' own', NLoop d c' y oid exs' e' own' /\ (exists n, union_with (tmerge_f n) e eb = Some e') /\
       MFrame (rootids y own exs) c c' /\ rm_frame (flat_map ownb (map fst rest)) c c' /\
       (forall j, In j (rootids y own' exs') ->
                  In j (rootids y own exs) \/ (length (t_interfaces (c_types c)) <= id_idx j)%nat).
   Proof.
-    induction rest as [|[name sk] rest IH]; intros eb ownb c c' exs e own L K ND Hdisj Hfresh H; cbn [forM] in H.
+    induction rest as [|[name sk] rest IH]; intros eb ownb c c' exs e own L K ND H; cbn [forM] in H.
     - apply ret_ok in H as [_ ->]. inversion K; subst. exists exs, e, own. split; auto. split; [exists O; reflexivity|].
       split; [apply MFrame_refl|]. split; [apply rm_frame_refl|auto].
     - inversion K as [|? [n' tb] ? eb0 [En Hk] K0]; subst. cbn [fst snd] in *. subst n'.
       cbn [map fst] in ND. inversion ND as [|? ? Hn ND']; subst.
       apply bindM_ok in H as [[] [c1 [H1 H]]].
-      destruct (nbody d HML f y name sk tb (ownb name) c c1 oid exs e own L Hk (Hfresh name (or_introl eq_refl)) H1)
+      destruct (nbody d HML f y name sk tb (ownb name) c c1 oid exs e own L Hk H1)
         as [exs1 [e1 [own1 [L1 [[n1 U1] [Fr1 [Rm1 Sub1]]]]]]].
-      assert (Hfresh1 : forall m, In m (map fst rest) -> fresh (ownb m) c1).
-      { intros m Hm. eapply fresh_frame; [exact Rm1| |apply Hfresh; now right].
-        intros j Hj Hj'. apply (Hdisj m name j); auto; [now right | now left | intros ->; contradiction]. }
-      destruct (IH eb0 ownb c1 c' exs1 e1 own1 L1 K0 ND' (fun a b j Ha Hb => Hdisj a b j (or_intror Ha) (or_intror Hb)) Hfresh1 H)
+      destruct (IH eb0 ownb c1 c' exs1 e1 own1 L1 K0 ND' H)
         as [exs' [e' [own' [L' [[n2 U2] [Fr2 [Rm2 Sub2]]]]]]].
       exists exs', e', own'. split; auto. split; [|split; [|split]].
       + exists (Nat.max n1 n2). rewrite union_with_cons.
@@ -388,7 +384,7 @@ Section NMerge.
 
   Lemma ML_of d (HML : forall d', d = S d' -> ML d') : ML d.
   Proof.
-    intros F y oid ea ids i oidb eb idsb c c' I [exs [own [Hg [ND [K [Sh ->]]]]]] [exsb [ownb [Hgb [NDb [Kb [[Shb1 Shb2] ->]]]]]] Hfresh H.
+    intros F y oid ea ids i oidb eb idsb c c' I [exs [own [Hg [ND [K [Sh ->]]]]]] [exsb [ownb [Hgb [NDb [Kb [_ ->]]]]]] H.
     destruct F as [|f]; [discriminate|]. rewrite merge_interface_S in H.
     apply bindM_ok in H as [[] [c1 [H1 H]]].
     assert (c1 = c) as ->.
@@ -398,9 +394,7 @@ Section NMerge.
     apply bindM_ok in H as [src [c0 [H0 H]]]. rewrite Hgb in H0. cbn [idxM] in H0. apply ret_ok in H0 as [-> ->].
     cbn [i_exports] in H.
     assert (L : NLoop d c y oid exs ea own) by (split; auto).
-    assert (Hfk : forall n, In n (map fst exsb) -> fresh (ownb n) c).
-    { intros n Hn j Hj. apply Hfresh. right. apply in_flat_own. eauto. }
-    destruct (nloop d HML f y oid exsb eb ownb c c' exs ea own L Kb NDb Shb2 Hfk H) as [exs' [e' [own' [L' [U [Fr [Rm Sub]]]]]]].
+    destruct (nloop d HML f y oid exsb eb ownb c c' exs ea own L Kb NDb H) as [exs' [e' [own' [L' [U [Fr [Rm Sub]]]]]]].
     exists e', (rootids y own' exs'). split; [exact U|]. split; [now apply (NLoop_IDen d)|]. split; [apply L'|].
     split; [exact Fr|]. split; [|exact Sub]. eapply rm_frame_weaken; [|exact Rm]. intros j Hj. now right.
   Qed.
